@@ -36,6 +36,8 @@ CFG = {"quick": 300, "thorough": 12000, "lengths": [10, 20, 35], "malformed": 0.
 
 def probe_oracle(hist, obs_lines):
     """after whatever came before, a config request still gets its M / I reply"""
+    if not hist or tuple(hist[-1]) != PROBE:
+        return []           # a stored history that does not end with the probe
     o = gwfam.parse_obs(obs_lines[-1])
     if o is None:
         return [{"key": {"kind": "probe-unparsable"}, "what": obs_lines[-1][:200], "at": len(hist) - 1,
